@@ -115,7 +115,17 @@ __attribute__((noinline)) tulz::Thread* launch(int path, F f, A&... a) {
     if (path == 0) {
         t = new tulz::Thread();
         if (t->isFinished()) sim::violation("finished-too-early", "isFinished() is true for a Thread whose callable has not even been started");
-        t->start(f, a...);
+        // thread creation may fail (injected EAGAIN): trying again on the SAME Thread object is plain valid use
+        for (int attempt = 0;; attempt++) {
+            try {
+                t->start(f, a...);
+                break;
+            } catch (const std::system_error&) {
+                sim::Untracked u;
+                g_extra["start_retried_on_same_object"]++;
+                if (attempt >= 2) throw;
+            }
+        }
     } else {
         t = new tulz::Thread(f, a...);
     }
